@@ -50,6 +50,13 @@ def _is_idish(e) -> bool:
     return False
 
 
+def run_extra(ctx: Ctx):
+    # ---------------------------------------------------------------- R15.9 answers never come from state that outlives the question
+    from .common import process_state_rule
+    process_state_rule(ctx, "R15.9", [ctx.repo.func("ProjectFileParser.parse")],
+                       "what an earlier text left in the kept state changes how an equivalent spelling is read")
+
+
 def run(ctx: Ctx):
     repo = ctx.repo
     scope = [f for f in repo.all_funcs() if f.module.rel.startswith(("scriptplan/parser/tjp_parser", "scriptplan/core/"))
